@@ -105,9 +105,15 @@ def history(draw, regkind='posix'):
     lastr = {p: None for p in range(len(PROJECTS))}
     clock = 0
     follow = None  # a training right after a prune (numbering over the gap)
+    # one history in five starts with the scripted shape that makes a numbering gap; the rest is free
+    script = ['publish', 'train', 'train', 'prune', 'train'] if crashable and draw(st.integers(0, 9)) >= 8 else []
+    nops = max(nops, len(script))
     for _ in range(nops):
         p = draw(st.sampled_from([0, 0, 0, 0, 1]))
-        if follow is not None and draw(st.integers(0, 9)) < 8:
+        scripted = len(script) > 1  # the scripted prefix up to the prune runs without crashes
+        if script:
+            p, kind = 0, script.pop(0)
+        elif follow is not None and draw(st.integers(0, 9)) < 8:
             p, kind = follow['p'], 'train'
         elif not shadow[p]:
             kind = 'publish'
@@ -145,7 +151,7 @@ def history(draw, regkind='posix'):
         else:
             op.update(r=lastr[p], g=draw(st.sampled_from([0, 0, 0, 1, 2, 3])))
             trains[p] = 0
-        if crashable and kind in ('publish', 'train') and draw(st.integers(0, 9)) >= 6:
+        if crashable and not scripted and kind in ('publish', 'train') and draw(st.integers(0, 9)) >= 6:
             op['crash'] = {'k': draw(st.integers(0, 40)), 'j': draw(st.sampled_from(fault.JMODES))}
         follow = op if kind == 'prune' else None
         ops.append(op)
